@@ -159,7 +159,10 @@ CHECKS = {
           "degree. The model (comparisons in binary32 like the kernels) is "
           "compared with the implementation's adjacency inside Coq; the "
           "implementation is compared with a rational-arithmetic brute force "
-          "and put through the affine / reversal relations.",
+          "and put through the affine / reversal relations. The three kernels (loop ranges, scan start, scan "
+          "condition expression by expression, link test, trivial links, "
+          "element type of the slopes) are regenerated from numerics.pyx on "
+          "every run and proved equal to the model.",
   "design_ref": "DESIGN.md section 5, C14",
   "note": "trusted: kernels transcribed by hand (loop shape tied by "
           "correspondence only); binary32 rounding model Base/F32.v; that "
@@ -187,7 +190,10 @@ CHECKS = {
           "quantile, joint, inter-system and network constructions are "
           "compared with the implementation inside Coq. Local rates, adaptive "
           "neighbourhoods (default and shuffled order), cross plots of unequal "
-          "lengths and applicability of every RQA method: direct checks only.",
+          "lengths and applicability of every RQA method: direct checks only. The three distance kernels and their cross-recurrence "
+          "twins (loop ranges, cells, per-dimension update over NaN-able "
+          "samples, root) are regenerated from numerics.pyx on every run and "
+          "proved equal to the model's state distances.",
   "design_ref": "DESIGN.md section 5, C07",
   "note": "trusted: kernels transcribed by hand; float rounding of "
           "int(rate*(len-1)) avoided by dyadic rates; sqrt monotone; the "
@@ -210,7 +216,11 @@ CHECKS = {
           "the current similarity after every setter sequence. Adjacency and "
           "density->threshold are compared with the implementation inside "
           "Coq on matrices with many ties; direct checks of n_links / "
-          "link_density / threshold() consistency, tie shortfall, subclasses.",
+          "link_density / threshold() consistency, tie shortfall, subclasses. The thresholding statements (strict comparison, zeroed "
+          "diagonal), the index into the sorted similarities (translated into "
+          "Gallina and proved equal to the model's), the damping of non-local "
+          "networks and the setters are regenerated from climate_network.py "
+          "on every run.",
   "design_ref": "DESIGN.md section 5, C09",
   "note": "trusted: the tanh distance weight is taken from the "
           "implementation's own float expression (the model receives the "
@@ -311,7 +321,9 @@ CHECKS = {
           "cross degree, the triangle count and the cross local clustering "
           "are the degree, the linked neighbour pairs and the local "
           "clustering of Model/GraphDefs.v (which the C03 check compares with "
-          "the library inside Coq).",
+          "the library inside Coq). The two unweighted kernels (loop nest over unique pairs, "
+          "counting conditions, quotient) are regenerated from numerics.pyx "
+          "on every run and proved to count what the model counts.",
   "design_ref": "DESIGN.md section 5, C11",
   "note": "trusted: igraph path lengths (the sub-block relation is checked "
           "on them, not their values); most methods have no Coq model "
